@@ -249,6 +249,9 @@ func readOptHeader(r io.Reader, d io.Writer, peStart int64, fh *pe.FileHeader) (
 	cksumEnd := cksumStart + 4
 	var dd4Start int64
 	var dd pe.DataDirectory
+	if len(buf) < 2 {
+		return nil, errors.New("PE optional header is too short")
+	}
 	optMagic := binary.LittleEndian.Uint16(buf[:2])
 	switch optMagic {
 	case optHeaderMagicPE32:
@@ -281,6 +284,9 @@ func readOptHeader(r io.Reader, d io.Writer, peStart int64, fh *pe.FileHeader) (
 		return nil, errors.New("unrecognized optional header magic")
 	}
 	dd4End := dd4Start + 8
+	if int64(len(buf)) < dd4End {
+		return nil, errors.New("PE optional header is too short")
+	}
 	hvals.certStart = int64(dd.VirtualAddress)
 	hvals.certSize = int64(dd.Size)
 	hvals.secTblStart = peStart + 24 + int64(fh.SizeOfOptionalHeader)
